@@ -192,6 +192,11 @@ def gen_program(r, ident, now):
                 data = b'\x89PNG\r\n\x1a\n' + data
             effects.append({'t': 'write', 'path': path, 'hex': data.hex()})
         else:
+            if any(x in path.rsplit('/', 1)[-1]
+                   for x in ('.png', '.gif', '.bin')):
+                # text is not written under a picture's name (gentest checks
+                # such files byte for byte, whatever they quote)
+                path = path + '.txt'
             effects.append({'t': 'write', 'path': path,
                             'text': gen_text(r, ident, now, 6)})
         names.append(path)
